@@ -2,11 +2,11 @@
 CONSTANTS
   Ids = {1, 2}
   Vers = {1, 2}
-  Kinds = {"node", "way", "changeset", "user", "bounds"}
+  Kinds = {"node", "way", "relation", "changeset", "note", "user", "bounds"}
   Targets = {"doc"}
   VisVals = {TRUE}
   Families = {"append", "reappend", "sort", "docds"}
-  MaxOps = 4
+  MaxOps = 3
   TagKeys = {}
   TagVals = {}
   RefKinds = {}
